@@ -417,7 +417,9 @@ pub fn fault_enumeration(op: &Op, action: Option<&Action>, sim: &Sim, _obs: &Obs
             fail_query: None,
         };
         let out = f.apply(&faulted);
-        r.case(&[b"fail_msg", kind.as_bytes(), cls.as_bytes(), &[out.ok as u8]]);
+        let pos: u8 = if i == 0 { 0 } else if i + 1 == n { 2 } else { 1 };
+        let nb: u8 = match n { 1 => 1, 2 => 2, 3..=5 => 3, 6..=12 => 4, _ => 5 };
+        r.case(&[b"fail_msg", kind.as_bytes(), cls.as_bytes(), &[out.ok as u8, pos, nb, t.dispatched[i].depth.min(3) as u8]]);
         r.fault("fail_msg");
         match cls {
             "bank_send" => r.hit("fault_on_bank_send"),
